@@ -113,6 +113,32 @@ pub fn run_lib13(lines: &[String]) -> Vec<String> {
           };
           Some(match r { Ok(true) => "consistent".into(), Ok(false) => "inconsistent".into(), Err(e) => format!("error {:?}", std::io::ErrorKind::from(e)) })
         }
+        // a path BELOW path p ("p/zz"): absent while p is absent or a directory (no entry is ever called zz); while p is a regular
+        // file the OS answers ENOTDIR, an error other than NotFound, which the checkers must return, not swallow
+        ["cstamp", c, p] => {
+          let p = cx.path(p)?.join("zz");
+          let r = match *c {
+            "E" => ExistsChecker.stamp(&p, state).map(Stamp::E).map_err(|_| ()),
+            "M" => ModifiedChecker.stamp(&p, state).map(Stamp::M).map_err(|_| ()),
+            "H" => HashChecker.stamp(&p, state).map(Stamp::H).map_err(|_| ()),
+            _ => return None,
+          };
+          match r {
+            Ok(s) => { let txt = cx.show(&s); cx.stamps.push(s); Some(format!("s{} {}", cx.stamps.len() - 1, txt)) }
+            Err(()) => Some("err".into()),
+          }
+        }
+        ["ccheck", c, p, k] => {
+          let p = cx.path(p)?.join("zz");
+          let k: usize = k.parse().ok()?;
+          let r = match (*c, cx.stamps.get(k)?) {
+            ("E", Stamp::E(s)) => ExistsChecker.check(&p, state, s).map(|x| x.is_none()).map_err(|_| ()),
+            ("M", Stamp::M(s)) => ModifiedChecker.check(&p, state, s).map(|x| x.is_none()).map_err(|_| ()),
+            ("H", Stamp::H(s)) => HashChecker.check(&p, state, s).map(|x| x.is_none()).map_err(|_| ()),
+            _ => return None,
+          };
+          Some(match r { Ok(true) => "consistent".into(), Ok(false) => "inconsistent".into(), Err(()) => "err".into() })
+        }
         ["readafter", c, p] => {
           let p = cx.path(p)?;
           let mut r = p.read(state).ok()?;
